@@ -505,6 +505,10 @@ class Parser:
                     raise Unsupported("for without in")
                 self.i += 1
                 it = self.parse_expr(no_struct=True)
+                if self.at_p('..'):
+                    self.i += 1
+                    hi = self.parse_expr(no_struct=True)
+                    it = ('range', it, hi)
                 return ('for', pat, it, self.parse_block())
             if kw in ('break', 'continue'):
                 self.i += 1
